@@ -130,6 +130,24 @@ def judge_batch(job):
                                                                       '%s (%s input, %s target): %s' % (
                                                                           why[0], label, target, why[1])))
                 prev_value = v
+    # A violation must be replayable on its own.  If the single state does not reproduce it (the failure
+    # needs its batch neighbours, e.g. two parents sharing one nested type), ship the whole batch as context.
+    import importlib
+    fixed = []
+    for pid, key, art in out['viol']:
+        if art is not None and pid in ('C01', 'C02', 'C19'):
+            try:
+                mod = importlib.import_module('vf.checks.' + pid)
+                if not mod.replay(art):
+                    for prep in prepared:
+                        for st, top in zip(prep.states, prep.tops):
+                            if st.key == art['state']:
+                                art = dict(art, defs=S.defs_to_json(prep.defs), schema=S.render_prophy(prep.defs), top=top,
+                                           context='whole batch: the failure does not reproduce on the state alone')
+            except Exception:       # noqa
+                pass
+        fixed.append((pid, key, art))
+    out['viol'] = fixed
     out['ltrans'] = sorted(out['ltrans'], key=repr)
     return out
 
